@@ -1,2 +1,6 @@
 // Package drivers links every property check into vcheck.
 package drivers
+
+import (
+	_ "verif/harness/drivers/c20conv"
+)
